@@ -247,7 +247,7 @@ def obligations_O2(rep):
         csr(o)
         return o._Expr__serialized
 
-    lits = [True, False, 0, 1, -1, 2, 0.0, -0.0, 1.0, 2.0, numpy.float32(1), numpy.float64(1), numpy.float16(1), numpy.float32(0), numpy.float32(-0.0), numpy.float64(-0.0), numpy.int64(1), numpy.int32(1), 1 + 0j, numpy.complex64(1), numpy.complex128(1), "eps", "pi"]
+    lits = [True, False, 0, 1, -1, 2, 0.0, -0.0, 1.0, 2.0, numpy.float32(1), numpy.float64(1), numpy.float16(1), numpy.float32(0), numpy.float32(-0.0), numpy.float64(-0.0), numpy.int64(1), numpy.int32(1), 1 + 0j, numpy.complex64(1), numpy.complex128(1), complex(-1, 0.0), complex(-1, -0.0), complex(0.0, 1), complex(-0.0, 1), numpy.complex64(complex(-1, 0.0)), numpy.complex64(complex(-1, -0.0)), numpy.complex128(complex(0.0, 2)), numpy.complex128(complex(-0.0, 2)), "eps", "pi"]
 
     def identical(u, v):
         if type(u) is not type(v):
@@ -291,7 +291,8 @@ def obligations_O1(rep):
         return o
 
     # O1a: two-level keys are injective on registered operands
-    shapes = [("leaf", "symbol", 0), ("leaf", "constant", 0)] + [("comp", k, n) for k in ("add", "negative") for n in (1, 2, 3)]
+    # composites up to 6 operands (lists, apply bodies and list arguments are n-ary): every operand position must count
+    shapes = [("leaf", "symbol", 0), ("leaf", "constant", 0)] + [("comp", k, n) for k in ("add", "negative") for n in (1, 2, 3)] + [("comp", "list", n) for n in (1, 2, 3, 4, 5, 6)]
 
     def build(shape, tag):
         typ, kind, n = shape
@@ -569,6 +570,28 @@ def obligations_O5(rep):
                 n += 1
                 if not (t.is_same(tr) if hasattr(t, "is_same") else t == tr) or bool(e.is_complex) != bool(r.is_complex):
                     bad.append((tname, str(e).replace("\n", " ")[:80], str(t), str(tr)))
+    # heterogeneously typed binary nodes: the reference operand chosen by normalize_like must still have the node's type
+    bad_mixed, nm = [], 0
+    with warnings.catch_warnings():
+        warnings.simplefilter("ignore")
+        for ta, tb in (("float32", "float64"), ("float64", "float32"), ("float16", "float32"), ("float32", "complex64"), ("complex64", "float32"), ("float32", "complex128"), ("complex64", "complex128"), ("complex128", "complex64"), ("float64", "complex64")):
+            for kind in ("add", "subtract", "multiply", "divide", "maximum", "minimum", "atan2", "hypot"):
+                if kind in ("maximum", "minimum", "atan2", "hypot") and (ta.startswith("complex") or tb.startswith("complex")):
+                    continue
+                ctx = fa.Context(paths=[])
+                x, y = ctx.symbol("x", ta), ctx.symbol("y", tb)
+                try:
+                    e = E.Expr(ctx, kind, (x, y))
+                    t = e.get_type()
+                    r = E.normalize_like(e)
+                    tr = r.get_type()
+                except Exception as ex:
+                    skipped.append(repr(ex)[:60])
+                    continue
+                nm += 1
+                if not (t.is_same(tr) if hasattr(t, "is_same") else t == tr):
+                    bad_mixed.append((kind, ta, tb, str(t), str(tr)))
+    rep.add(core.decided("C07/O5/normalize-like-preserves-type/mixed-operand-types", PROP, not bad_mixed, functions=fn, text="%d binary nodes over operands of different types: the reference operand chosen by normalize_like has the node's type (a constant like such a node keeps its reference type)" % nm, detail=dict(bad=bad_mixed[:8], n=nm), meta=dict(clause="O5-mixed", bad=bad_mixed[:8])))
     rep.add(core.decided("C07/O5/normalize-like-preserves-type", PROP, not bad, functions=fn, text="%d homogeneously typed expressions (every kind over float32/64, complex64/128 leaves, two levels): normalize_like keeps get_type and is_complex" % n, detail=dict(bad=bad[:8], n=n), meta=dict(clause="O5", bad=bad[:8])))
 
 
